@@ -43,7 +43,7 @@ def perturb(e, rnd, lib):
         n = rnd.choice(nodes)
         t = lib.xsd_type_name(type(n))
         table = [a for a in ref.attr_table(t) if a[1] is not None and a[0] != 'name'] if t in ref.ALL else []
-        kind = rnd.choice(['set', 'overwrite', 'remove', 'remove', 'value', 'uncheck'])
+        kind = rnd.choice(['set', 'overwrite', 'remove', 'remove', 'value', 'uncheck', 'refused', 'refused'])
         if kind in ('set', 'overwrite', 'remove') and table:
             an, at, req = rnd.choice(table)
             key = an.replace('-', '_')
@@ -79,6 +79,15 @@ def perturb(e, rnd, lib):
         elif kind == 'uncheck':
             n.xsd_check = False
             done.append('uncheck %s' % n.name)
+        elif kind == 'refused':
+            # an assignment the library refuses (value or attribute): the tree stays reachable through the API
+            if rnd.random() < 0.5:
+                r = lib.call(setattr, n, 'value_', rnd.choice([object(), '@@bad@@', -987654321.5, []]))
+                done.append('refused-value %s (%s)' % (n.name, 'raised' if r[0] == 'exc' else 'accepted'))
+            elif table:
+                an, at, req = rnd.choice(table)
+                r = lib.call(setattr, n, an.replace('-', '_'), rnd.choice([object(), '@@bad@@', []]))
+                done.append('refused-attribute %s/@%s (%s)' % (n.name, an, 'raised' if r[0] == 'exc' else 'accepted'))
     return done
 
 
